@@ -385,16 +385,50 @@ def run_model(exe, mode, lines, timeout=1800):
     a large batch is split into shards run side by side -- the extracted code is single-threaded and the thorough tiers hand it
     10^5 scenarios."""
     if len(lines) > 4000 and not os.environ.get("VERIF_DEBUG_MODEL"):
-        from concurrent.futures import ThreadPoolExecutor
+        # the shard processes are all started from this thread, reading and writing files (no threads: a preexec_fn in a
+        # multi-threaded parent can deadlock the child)
+        import tempfile
         nsh = min(8, max(2, len(lines) // 2000))
         size = (len(lines) + nsh - 1) // nsh
         shards = [lines[i:i + size] for i in range(0, len(lines), size)]
-        with ThreadPoolExecutor(len(shards)) as ex:
-            try:
-                parts = list(ex.map(lambda ls: _run_model1(exe, mode, ls, timeout), shards))
-            except subprocess.TimeoutExpired:
-                raise BuildError("model driver did not answer within %d s on a shard of %d lines" % (timeout, size))
-        return [x for part in parts for x in part]
+        tdir = tempfile.mkdtemp(prefix="model-", dir=BUILD)
+        procs = []
+        try:
+            for k, ls in enumerate(shards):
+                with open(os.path.join(tdir, "in%d" % k), "w") as f:
+                    f.write("\n".join(ls) + "\n")
+                fi = open(os.path.join(tdir, "in%d" % k))
+                fo = open(os.path.join(tdir, "out%d" % k), "w")
+                fe = open(os.path.join(tdir, "err%d" % k), "w")
+                procs.append((subprocess.Popen([exe, mode], stdin=fi, stdout=fo, stderr=fe, preexec_fn=_limits), fi, fo, fe))
+            t_end = time.time() + timeout
+            for pr, fi, fo, fe in procs:
+                try:
+                    pr.wait(timeout=max(1.0, t_end - time.time()))
+                except subprocess.TimeoutExpired:
+                    raise BuildError("model driver did not answer within %d s on a shard of %d lines" % (timeout, size))
+            res = []
+            for k, ((pr, fi, fo, fe), ls) in enumerate(zip(procs, shards)):
+                fo.close()
+                fe.close()
+                out = open(os.path.join(tdir, "out%d" % k)).read().split("\n")
+                if out and out[-1] == "":
+                    out.pop()
+                if pr.returncode != 0 or len(out) != len(ls):
+                    raise BuildError("model driver failed (rc=%s, %d/%d lines): %s" % (pr.returncode, len(out), len(ls),
+                                                                                      open(os.path.join(tdir, "err%d" % k)).read()[-2000:]))
+                res += out
+            return res
+        finally:
+            for pr, fi, fo, fe in procs:
+                if pr.poll() is None:
+                    pr.kill()
+                for fh in (fi, fo, fe):
+                    try:
+                        fh.close()
+                    except Exception:
+                        pass
+            shutil.rmtree(tdir, ignore_errors=True)
     return _run_model1(exe, mode, lines, timeout)
 
 
